@@ -35,7 +35,7 @@ func (p *propC13) ProbeNames() []string {
 func (p *propC13) Prepare(seed uint64, tier string) int {
 	p.seed, p.tier = seed, tier
 	p.count = 120000
-	if tier == "thorough" {
+	if isThorough(tier) {
 		p.count = 4000000
 	}
 	return p.count
